@@ -44,7 +44,11 @@ O(id="C18.word64", entry="harness_word64", unwind=10,
 O(id="C18.word32_pair", entry="harness_word32_pair", unwind=6,
   symbolic="two 32-bit words from the start state, is_complete = true", bounds="two words",
   **dict(_c18, functions=["cjet_is_word_sequence_valid", "is_byte_valid"]))
-O(id="C18.auto_aligned", entry="harness_auto", unwind=19, reach=["auto_word_path"], defines=["ALEN=17"],
-  symbolic="text bytes, length 0..17, alignment 0..7, is_complete; text in an exact-size heap object",
-  bounds="length <= 17 (one 64-bit word + pre/post bytes at every alignment)", timeout={"quick": 600, "thorough": 1800},
-  **dict(_c18, functions=["cjet_is_word_sequence_valid_auto_alligned", "cjet_is_word64_sequence_valid", "cjet_is_byte_sequence_valid", "is_byte_valid"]))
+for _off in range(8):
+    O(id="C18.auto_aligned_off%d" % _off, entry="harness_auto", unwind=19, reach=["auto_word_path"],
+      defines=["ALEN=17", "AOFF=%d" % _off],
+      symbolic="text bytes, length 0..17, is_complete; text in an exact-size heap object at alignment %d" % _off,
+      bounds="length <= 17 (one 64-bit word + pre/post bytes); alignment enumerated 0..7 over eight obligations",
+      timeout={"quick": 600, "thorough": 1800},
+      **dict(_c18, functions=["cjet_is_word_sequence_valid_auto_alligned", "cjet_is_word64_sequence_valid",
+                              "cjet_is_byte_sequence_valid", "is_byte_valid"]))
